@@ -97,39 +97,44 @@ def run(rep, scratch, tier, seed, replay=None):
             raise core.FrameworkError("the generator produced a tree that is not wf_query: %s" % text.show_tree(t))
         if model.get(("FN", cid)) != "NORM-EQUAL":
             raise core.FrameworkError("model-internal: norm(parse(format q)) != norm q on %s (impossible if C10_roundtrip holds)" % text.show_tree(t))
-        why = None
+        diff = None
         for tag in ("F", "F1", "F2", "F3"):
             a, b = impl.get((tag, cid)), model.get((tag, cid))
             if a != b:
-                why = "%s: implementation %s, model %s" % ({"F": "formatted text", "F1": "re-parse of the text", "F2": "second-round text", "F3": "third-round text"}[tag], str(a)[:160], str(b)[:160])
+                diff = "%s: implementation %s, model %s" % ({"F": "formatted text", "F1": "re-parse of the text", "F2": "second-round text", "F3": "third-round text"}[tag], str(a)[:160], str(b)[:160])
                 break
-        # the property on the implementation's own outputs
+        # the property itself, on the implementation's own outputs
+        prop = None
         a1 = impl.get(("F1", cid), "")
-        if why is None:
-            if not a1.startswith("ACCEPT"):
-                why = "the formatted text is rejected by the parser: %s" % a1[:80]
-            else:
-                toks = a1.split()[1:]
-                t1, p = parse_tree(toks)
-                gb1 = []
-                if toks[p] == "GB":
-                    m = int(toks[p + 1])
-                    q = p + 2
-                    for _ in range(m):
-                        n = int(toks[q])
-                        gb1.append(bytes(int(x) for x in toks[q + 1:q + 1 + n]))
-                        q += 1 + n
-                if norm(t1) != norm(t) or gb1 != gb:
-                    why = "the re-parsed tree means something else: %s vs %s" % (text.show_tree(t1)[:120], text.show_tree(t)[:120])
-                elif impl.get(("F3", cid)) != impl.get(("F2", cid)):
-                    why = "the second-round text is not stable"
-                distinct.add(a1)
-        if why:
-            bad.append((i, t, gb, why))
-    for i, t, gb, why in bad[:3]:
-        rep.violation("correspondence", "tree %s ; %s -> %s" % (text.show_tree(t)[:200], [c.decode() for c in gb], why),
-                      {"line": lines[i], "tree": text.show_tree(t), "group_by": [c.hex() for c in gb], "why": why,
-                       "impl": {k[0]: v for k, v in impl.items() if k[1] == "c%d" % i}, "model": {k[0]: v for k, v in model.items() if k[1] == "c%d" % i}})
+        if not a1.startswith("ACCEPT"):
+            prop = "the formatted text %s is rejected by the parser: %s" % (str(impl.get(("F", cid)))[:100], a1[:80])
+        else:
+            toks = a1.split()[1:]
+            t1, p = parse_tree(toks)
+            gb1 = []
+            if toks[p] == "GB":
+                m = int(toks[p + 1])
+                q = p + 2
+                for _ in range(m):
+                    n = int(toks[q])
+                    gb1.append(bytes(int(x) for x in toks[q + 1:q + 1 + n]))
+                    q += 1 + n
+            if norm(t1) != norm(t) or gb1 != gb:
+                prop = "the re-parsed tree means something else: %s vs %s" % (text.show_tree(t1)[:120], text.show_tree(t)[:120])
+            elif impl.get(("F3", cid)) != impl.get(("F2", cid)):
+                prop = "the second-round text is not stable"
+            distinct.add(a1)
+        if prop or diff:
+            bad.append((i, t, gb, prop, diff))
+    bad.sort(key=lambda x: (x[3] is None, len(text.show_tree(x[1]))))
+    nprop = sum(1 for x in bad if x[3])
+    for i, t, gb, prop, diff in bad[:3]:
+        rep.violation("monitor:roundtrip" if prop else "correspondence",
+                      "tree %s ; %s -> %s" % (text.show_tree(t)[:200], [c.decode() for c in gb], prop or (diff + " (text differs from the model's; no tree was found whose meaning is lost)")),
+                      {"line": lines[i], "tree": text.show_tree(t), "group_by": [c.hex() for c in gb], "property_failure": prop, "text_difference": diff,
+                       "impl": {k[0]: v for k, v in impl.items() if k[1] == "c%d" % i}, "model": {k[0]: v for k, v in model.items() if k[1] == "c%d" % i}},
+                      no_input=(prop is None and nprop == 0))
+    bad = [(i, t, gb, prop or diff) for i, t, gb, prop, diff in bad]
     rep.coverage.update({
         "evaluations": len(cases), "distinct_nontrivial": len(distinct),
         "rule": "all trees of depth<=2 / arity<=3 over a 4-leaf alphabet (literal, value with quote, placeholder, value with newline/NUL/0xff) — exhaustive in thorough, a fixed prefix plus a sample in quick — and random trees (depth<=9, arity<=6, single-operand and directly nested operators, hostile values, placeholders up to 2^31-1, group-by lists of 0..8 identifiers). Compared byte for byte: formatted text, re-parsed tree, second- and third-round text; the property (norm equality, same group-by, stable text) evaluated on the implementation's outputs. Non-trivial = distinct re-parsed trees.",
